@@ -68,7 +68,9 @@ fn scenario(ctx: &Ctx, idx: u64) -> Report {
         }
         world.extra_names = extras;
         net.add_actor(move |a| owned.contains(a), world);
-        net.set_link(Link::uniform(MS, 80 * MS));
+        let mut link = Link::uniform(MS, 80 * MS);
+        link.dup_p = *[0.0, 0.0, 0.2].choose(&mut rng).unwrap();
+        net.set_link(link);
 
         let mut cfg = NodeCfg::new(addr);
         cfg.id = Some(id);
@@ -76,6 +78,9 @@ fn scenario(ctx: &Ctx, idx: u64) -> Report {
         cfg.nodes = contacts;
         cfg.routers = routers.iter().map(|r| r.to_string()).collect();
         let dht = spawn_node(&net, &cfg);
+        if rng.gen_bool(0.3) {
+            crate::world::api_hammer(&net, &dht, addr, seed, 0.05, 20_000);
+        }
         report.evaluations += 1;
 
         // ---- injections throughout the node's life: bootstrapping, idle, searching
